@@ -427,6 +427,17 @@ func main() {
 		"sockets, clock, context and sync primitives are the models of engine/shim (conformance-tested against the real ones); crypto/tls is the real library over the modelled sockets",
 		"virtual time advances only when no thread can run",
 	}
+	if path := os.Getenv("VERIF_CONFORM"); path != "" {
+		if b, err := os.ReadFile(path); err == nil {
+			var m struct {
+				Histories     int `json:"histories"`
+				Disagreements int `json:"disagreements"`
+			}
+			if json.Unmarshal(b, &m) == nil {
+				r.Cov["shim_conformance"] = map[string]int{"micro_histories_run_on_model_and_on_real_sockets": m.Histories, "disagreements": m.Disagreements}
+			}
+		}
+	}
 	if path := os.Getenv("VERIF_SUMMARY"); path != "" {
 		b, _ := json.Marshal(r.Cov)
 		os.WriteFile(path, b, 0o644)
